@@ -46,6 +46,10 @@ def events(rich=False):
         ev.append(("move", o, "down"))
     ev.append(("replace", "a", ("parsed", "p2"), None, None))
     ev.append(("replace", "b", ("get", "b"), None, ""))
+    # a filter replaced by its own content under a new name (a plain rename through replacefilter)
+    ev.append(("replace", "a", ("get", "a"), "c", None))
+    ev.append(("replace", "b", ("get", "b"), "a", "own"))
+    ev.append(("replace", "c", ("get", "c"), "b", None))
     # definitions whose only test is a constant (`false` is also what the disabled wrapper tests)
     ev.append(("add", "a", "d10"))
     ev.append(("update", "b", "b", "d10"))
